@@ -139,7 +139,9 @@ func (p *Proxy) connectHTTP(req *http.Request, proxyURL *url.URL) (res *http.Res
 
 	if res != nil {
 		if res.StatusCode/100 == 2 {
-			res.Body.Close()
+			// Whatever follows the header of a 2xx reply belongs to the tunnel, Content-Length and
+			// Transfer-Encoding are to be ignored (RFC 9110, section 9.3.6). Closing the body would
+			// read that many bytes of the tunnel and throw them away.
 			return newConnectResponse(req), conn, nil
 		}
 
